@@ -60,6 +60,9 @@ func init() {
 				Edits: []Edit{{File: "channel/sendinteractive.go", Old: "\t\t\tnb, err = readUntilF(ctx, []byte(e.ChannelInput))\n\t\t\tif err != nil {\n\t\t\t\tcr <- &result{b: nil, err: err}", New: "\t\t\tnb, err = readUntilF(ctx, []byte(e.ChannelInput))\n\t\t\tif err != nil {\n\t\t\t\tcr <- &result{b: nil, err: fmt.Errorf(\"event %d: %v\", i, err)}"}}},
 			{ID: "C05-rpc-poller-conn-wide", Desc: "RPC poller bounded by the connection-wide timeout", Rule: "C05/deadline-source",
 				Edits: []Edit{{File: "driver/netconf/rpc.go", Old: "ctx, cancel := context.WithCancel(context.Background())", New: "ctx, cancel := context.WithTimeout(context.Background(), d.Channel.TimeoutOps)"}}},
+			{ID: "C05-deadline-behind-idle-branch", Desc: "ReadUntilExplicit looks at its context only after a chunk arrived", Rule: "C05/deadline-every-pass",
+				Edits: []Edit{{File: "channel/read.go", Old: "func (c *Channel) ReadUntilExplicit(ctx context.Context, b []byte) ([]byte, error) {\n\tvar rb []byte\n\n\tfor {\n\t\tselect {\n\t\tcase <-ctx.Done():\n\t\t\treturn nil, ctx.Err()\n\t\tdefault:\n\t\t}\n", New: "func (c *Channel) ReadUntilExplicit(ctx context.Context, b []byte) ([]byte, error) {\n\tvar rb []byte\n\n\tfor {\n"},
+					{File: "channel/read.go", Old: "\t\t\tb,\n\t\t) {\n\t\t\treturn rb, nil\n\t\t}\n\t}\n}", New: "\t\t\tb,\n\t\t) {\n\t\t\treturn rb, nil\n\t\t}\n\n\t\tselect {\n\t\tcase <-ctx.Done():\n\t\t\treturn nil, ctx.Err()\n\t\tdefault:\n\t\t}\n\t}\n}"}}},
 			{ID: "C05-rpc-poller-own-deadline", Desc: "RPC poller's context carries the operation deadline itself: it can close the result channel unanswered while sendRPC still waits", Rule: "C05/closed-result-zero",
 				Edits: []Edit{{File: "driver/netconf/rpc.go", Old: "ctx, cancel := context.WithCancel(context.Background())", New: "ctx, cancel := context.WithTimeout(context.Background(), d.Channel.GetTimeout(op.Timeout))"}}},
 			{ID: "C05-driver-closes-again", Desc: "generic Open closes the channel again when Channel.Open failed", Rule: "C05/no-double-close",
@@ -240,6 +243,10 @@ func runC05(c *Ctx, r *Report) {
 	checkNoReadAfterReturn(c, r)
 	checkClosedResultNil(c, r)
 	checkClosedResultZero(c, r, "C05/closed-result-zero")
+	r.Rule("C05/deadline-every-pass", "in each read-until loop every cycle from one Channel.Read to the next passes the context check (also the cycle taken while nothing arrives)", 4)
+	checkDeadlineEveryPass(c, r, "C05/deadline-every-pass")
+	r.Rule("C05/id-allocation", "(restated from C08) a timed-out RPC does not hand its message-id back: the late reply to it can never be taken for the reply to the next request", 1)
+	importObligations(r, func(sub *Report) { runC08(c, sub) }, "C08/id-allocation", "C05/id-allocation")
 	r.Rule("C05/netconf-deadline-resolved", "every deadline the NETCONF driver sets up takes its duration from Channel.GetTimeout (zero = maximum holds for the hello exchange as for every RPC)", 2)
 	checkNetconfDeadlinesResolved(c, r, "C05/netconf-deadline-resolved")
 }
